@@ -685,11 +685,17 @@ def s11_span(inst, rep, rid="S11"):
 # S7 / S18  cursor saturation and termination of the skeleton's own loops
 # -------------------------------------------------------------------------------------------------
 def s7_saturate(inst, rep, rid="S7"):
-    rep.rule(rid, "DOM: in advance and init_skip the None edge of tokens.get(pos) assigns current <- end_of_input and leaves the loop; "
+    rep.rule(rid, "DOM: in every skeleton function that fetches tokens.get(pos) and classifies the token (advance, init_skip or a helper; "
+                  "advance refills through one of them) the None outcome assigns current <- end_of_input on every path and leaves the loop; "
                   "every cycle of every loop of the skeleton's cursor functions passes `pos <- pos + 1` and the loop has an exit on the "
                   "None edge of tokens.get(pos) or on !(pos < tokens.len())")
-    for rel in ("Parser::advance", "Parser::init_skip"):
-        body = inst.fn(rel)
+    cursor_fns = [(rel, body) for rel, body, _pr, fetch, pushes, cur in _skip_sites(inst) if fetch]
+    if not cursor_fns:
+        rep.violation(rid, "no-cursor-function", "%s: no skeleton function fetches tokens.get(pos) and classifies the token (advance/init_skip not recognised)" % inst.label, "")
+    calls_of = {rel: {fn_tail(name) for pt, name, decl, args, t in calls(inst.fn(rel))} for rel in ("Parser::advance",)}
+    if not any(rel == "Parser::advance" for rel, _ in cursor_fns) and not any(fn_tail(r) in calls_of["Parser::advance"] for r, _ in cursor_fns):
+        rep.violation(rid, "Parser::advance|no-refill", "%s: Parser::advance neither fetches the next token itself nor calls a function that does" % inst.label, "")
+    for rel, body in cursor_fns:
         pr = P(body)
         found = False
         for b in body.reachable():
@@ -698,21 +704,26 @@ def s7_saturate(inst, rep, rid="S7"):
                 continue
             e = pr.operand(t["d"])
             if e[0] == "discr" and e[1][0] == "call" and is_call(e[1], "slice::get") and mentions_field(e[1][2][0], "Parser", "tokens") and is_field(e[1][2][1], "Parser", "pos"):
+                explicit = [v for v, _ in t["arms"]]
                 for tgt, lab in body.succ_edges(b):
-                    if lab == ("v", 0):  # None
+                    if lab == ("v", 0) or (lab[0] == "else" and 0 not in explicit):  # the None outcome
                         found = True
-                        # on this edge: store current <- end_of_input, then no back edge into a loop containing b
-                        sts = [(p, v) for p, a, f, v, _s in stores(body) if a == "Parser" and f == "current" and p[0] == tgt]
-                        good_store = any(v[0] == "field" and v[3] == "end_of_input" for _, v in sts)
+                        # on this edge: current <- end_of_input is stored on every path before the function returns, and the path does not
+                        # go round the fetch loop again
                         loops = [L for L in body.loops() if b in L["body"]]
                         leaves = all(tgt not in L["body"] or not _reaches_back(body, tgt, L) for L in loops)
-                        if good_store and leaves and loops:
+
+                        def is_eoi_store(q, it):
+                            return any(a == "Parser" and f == "current" and v[0] == "field" and v[3] == "end_of_input" for _p, a, f, v, _s in stores_at(body, q, it)) if isinstance(it, dict) else False
+                        escapes = flow.find_path(body, (tgt, -1), flow.is_return, blocks_point=is_eoi_store)
+                        good_store = escapes is None
+                        if good_store and leaves:
                             rep.ok(rid, "%s %s: None edge sets current <- end_of_input and leaves the loop" % (inst.label, rel))
                         else:
                             rep.violation(rid, "%s|none-edge" % rel, "%s: %s at end of input %s%s" % (inst.label, rel, "" if good_store else "does not set current to end_of_input ", "" if leaves else "stays in the skip loop"), site(body, (b, len(body.blocks[b]["s"]))))
         if not found:
             rep.violation(rid, "%s|no-get" % rel, "%s: %s has no tokens.get(pos) test" % (inst.label, rel), "%s:%d" % (body.file, body.line))
-    for rel in ("Parser::advance", "Parser::init_skip", "Parser::parse_rule"):
+    for rel in sorted({r for r, _ in cursor_fns} | {"Parser::advance", "Parser::init_skip", "Parser::parse_rule"}):
         body = inst.fn(rel)
         pr = P(body)
         for L in body.loops():
